@@ -49,6 +49,11 @@ pub struct ItObj<E> {
     pub model: VecDeque<u32>,
     /// how many elements have been consumed from the front (coverage only)
     pub front: usize,
+    /// elements this iterator was told to skip (nth / nth_back) that were still live when the call
+    /// returned: an implementation may release them lazily, any time until the iterator is gone
+    pub deferred: Vec<u32>,
+    /// the same for elements without identity (a count)
+    pub deferred_anon: u64,
 }
 
 pub enum VecObj<E> {
@@ -546,7 +551,11 @@ impl<E: Elem> World<E> {
         let leak_ok = cx.checks.leak_ok_after_drop_fault || !cx.checks.conserve;
         if E::HAS_ID {
             if ledger::live_count() as u64 != reach {
-                let un = ledger::walk_unreached(8);
+                // skipped elements a live iterator may still own are not leaks (yet)
+                for io in self.its.iter_mut() {
+                    io.deferred.retain(|&id| ledger::is_live(id));
+                }
+                let un: Vec<u32> = ledger::walk_unreached(usize::MAX).into_iter().filter(|id| !self.its.iter().any(|io| io.deferred.contains(id))).take(8).collect();
                 if !un.is_empty() {
                     if cx.checks.conserve && !(cx.checks.leak_ok_after_drop_fault && fault_drop_fired) {
                         fail(
@@ -554,7 +563,7 @@ impl<E: Elem> World<E> {
                             format!("elements {un:?} are live but no longer reachable from any object the caller holds: they will never be dropped"),
                         );
                     } else if leak_ok {
-                        let all = ledger::walk_unreached(usize::MAX);
+                        let all: Vec<u32> = ledger::walk_unreached(usize::MAX).into_iter().filter(|id| !self.its.iter().any(|io| io.deferred.contains(id))).collect();
                         ledger::forgive_leaks(&all);
                     }
                 }
@@ -562,7 +571,10 @@ impl<E: Elem> World<E> {
         } else {
             let (c, d) = ledger::zt_balance();
             let live = c.saturating_sub(d);
-            if live > reach {
+            let deferred: u64 = self.its.iter().map(|io| io.deferred_anon).sum();
+            if live > reach && live - reach <= deferred {
+                // may still be owned by iterators that were told to skip them
+            } else if live > reach {
                 if cx.checks.conserve && !(cx.checks.leak_ok_after_drop_fault && fault_drop_fired) {
                     fail(
                         "I4-leak",
